@@ -93,6 +93,12 @@ def check_blend(P, R):
             nt = [(s_, a) for s_, a in terms if has(a, [na]) and not has(a, prior_a) and not has(a, data_a)]
             R.check(bool(nt) and all(s_ == -1 and not has(a, [al]) for s_, a in nt), "BLEND.mean2", f.key, f"{t.attr}: - adapted mean^2", pol.fmt_terms(nt)[:80], f"the squared adapted mean is not subtracted (unweighted) from the variance blend: {pol.fmt_terms(nt) or 'missing'}", st.lineno)
     # alpha
+    n_alpha = 0
+    for st, t, v, k in stores(f):
+        if isinstance(t, ast.Name) and t.id == "alpha" and isinstance(v, ast.BinOp):
+            n_alpha += 1
+    if n_alpha == 0:
+        R.violation("DEP.alpha", f.key, "alpha = n / (n + relevance_factor)", "the data-dependent adaptation coefficient is no longer computed: with Reynolds adaptation the configured fixed ratio is used for every component, whatever its evidence")
     for st, t, v, k in stores(f):
         if isinstance(t, ast.Name) and t.id == "alpha" and isinstance(v, ast.BinOp):
             c = cone(du, v, du.stmt_of(st), interproc=False)
